@@ -3,7 +3,7 @@ import GS.Generated.StatusCodes
 Responder request lifecycle (properties C05, C23, C25).  Core Lean only.
 
 Actor model of the responder side of go-graphsync (at /repo HEAD, including the fixes 369d047,
-50602fc and its follow-up made while building this cluster):
+50602fc, cecee8f and the task-ownership fix made while building this cluster):
 
   responsemanager/server.go     run / processRequests / newRequest / processUpdate / abortRequest /
                                 startTask / finishTask / getUpdates / pause / unpause / update /
@@ -111,6 +111,7 @@ structure Aux where
   ended : Bool := false         -- a load failed (SkipMe): the chain has no further links
   hooked : Nat := 0             -- block hooks run so far
   missing : Bool := false       -- link tracker: a block was missing
+  task : Option Nat := none     -- response.task: the worker (task) that executes this response
 deriving DecidableEq, Repr
 
 /-- inProgressResponseStatus -/
@@ -303,6 +304,7 @@ structure State where
   innerLen : Nat := 88                -- encoded length of every other block
   limit : Nat := 0                    -- per-peer memory limit, 0 = unlimited
   maxActive : Nat := 0                -- MaxOutstandingWorkPerPeer, 0 = unlimited
+  nWorkers : Nat := 0                 -- size of the task-worker pool, 0 = unbounded
   table : List Resp := []
   closed : List Id := []              -- response streams that were closed
   queues : List PeerQ := []
@@ -583,7 +585,7 @@ def startTask (s : State) (w : Nat) : State :=
       if r.state == .completing then setPhase (taskDone s wk.peer wk.id) w .done
       else
         let s1 := if r.aux.started then s else emit s (.proc r.id)
-        setWorker (setState (modAux s1 r.id fun a => { a with started := true }) r.id .running) w
+        setWorker (setState (modAux s1 r.id fun a => { a with started := true, task := some w }) r.id .running) w
           fun x => { x with phase := .started, parkF := r.cfg.parkFinish }
 
 /-- finishTask -/
@@ -595,7 +597,11 @@ def finishTask (s : State) (w : Nat) (err : Option WErr) : State :=
     match lookup s1 wk.id with
     | none => s1
     | some r =>
-      if r.aux.netErr then terminate s1 r.id
+      if r.aux.task != some w then
+        -- the task belongs to an earlier response with the same id (already gone): the response now in
+        -- the table is a new request whose own task could not be queued while this one was active
+        (if r.state == .queued then pushTask s1 r.peer r.id r.cfg.pri else s1)
+      else if r.aux.netErr then terminate s1 r.id
       else if err == some .paused then setState s1 r.id .paused
       else if err == some .ctxCancel then terminate (emit s1 (.canc r.id)) r.id
       else if err == some .network then terminate s1 r.id
@@ -865,9 +871,13 @@ inductive Action
   | thaw                               -- task queue ticker
 deriving DecidableEq, Repr
 
+/-- task workers that are executing a task (the real pool has `nWorkers` goroutines) -/
+def liveWorkers (s : State) : Nat := (s.workers.filter (·.phase != .done)).length
+
 def popTask (s : State) (p : Peer) (id : Id) : Option State :=
   let q := getQ s p
-  if q.freeze == 0 && q.pending.any (·.1 == id) && (s.maxActive == 0 || q.active.length < s.maxActive) then
+  if q.freeze == 0 && q.pending.any (·.1 == id) && (s.maxActive == 0 || q.active.length < s.maxActive) &&
+      (s.nWorkers == 0 || liveWorkers s < s.nWorkers) then
     let s1 := setQ s { q with pending := q.pending.filter (·.1 != id), active := q.active ++ [id] }
     let w := s1.workers.length
     some (sendMsg { s1 with workers := s1.workers ++ [{ peer := p, id, phase := .waitStart }] } (.startTask w))
@@ -896,14 +906,26 @@ def step (s : State) : Action → Option State
   | .primer p => some (primer s p)
   | .thaw => some (thawAll s)
 
-def init (limit : Nat) : State := { limit }
+/-- everything a responder is configured with (the correspondence driver starts from arbitrary values) -/
+structure Cfg where
+  limit : Nat := 0
+  extLen : Nat := 17
+  leafLen : Nat := 45
+  innerLen : Nat := 88
+  maxActive : Nat := 0
+  nWorkers : Nat := 0
+deriving DecidableEq, Repr
+
+def init (c : Cfg) : State :=
+  { limit := c.limit, extLen := c.extLen, leafLen := c.leafLen, innerLen := c.innerLen,
+    maxActive := c.maxActive, nWorkers := c.nWorkers }
 
 /-- run a list of actions (disabled actions are skipped) -/
 def run (s : State) (as : List Action) : State :=
   as.foldl (fun s a => (step s a).getD s) s
 
-inductive Reachable (limit : Nat) : State → Prop
-  | init : Reachable limit (init limit)
-  | step {s s' a} : Reachable limit s → step s a = some s' → Reachable limit s'
+inductive Reachable (c : Cfg) : State → Prop
+  | init : Reachable c (init c)
+  | step {s s' a} : Reachable c s → step s a = some s' → Reachable c s'
 
 end GS.RespLife
